@@ -38,6 +38,28 @@ type (
 	}
 )
 
+// flag is a named bool type; flags holds it at every position a value can have.
+type flag bool
+
+type flags struct {
+	On   flag
+	List []flag
+	M    map[string]flag
+	P    *flag
+}
+
+// wide64 holds integers that no float64 holds.
+type wide64 struct {
+	N int64
+	U uint64
+}
+
+// casePair has two fields whose names differ in case only.
+type casePair struct {
+	AB *int
+	Ab *int
+}
+
 // names has a field name of every length class and casing pattern the key
 // rules distinguish (one, two, three, four and five letters; capitals at the
 // front, inside, everywhere); no two names collide when lower-cased.
@@ -89,6 +111,12 @@ func namedCases() []namedCase {
 			h.In.P, h.In.Q = 1, "q"
 			return h
 		}},
+		{name: "flags/nonzero", typ: "named-bool", mk: func() any {
+			t := flag(true)
+			return &flags{On: true, List: []flag{true, false}, M: map[string]flag{"k": true}, P: &t}
+		}},
+		{name: "wide64/beyond-2^53", typ: "integers-beyond-2^53", mk: func() any { return &wide64{N: 9007199254740993, U: 9007199254740993} }},
+		{name: "casePair/second-only", typ: "fields-that-differ-in-case", mk: func() any { one := 1; return &casePair{Ab: &one} }},
 		{name: "names/nonzero", typ: "field-names", mk: func() any {
 			return &names{A: 1, Bc: 2, DE: 3, Fgh: 4, IJK: 5, URL: "u", LMn: 6, OpQ: 7, Rstu: 8, VWXY: 9, ZaBcd: 10}
 		}},
